@@ -297,7 +297,18 @@ class Engine:
         return [("n", st, UNK)]
 
     def ev_closure(self, n, st):
-        return [("n", st, UNK)]
+        return [("n", st, ("closure", n))]
+
+    def call_closure(self, clo, args, st):
+        """evaluate a closure value on abstract arguments: → [(ctl, st, val)]"""
+        n = clo[1]
+        s = st.copy()
+        for p, a in zip(n.get("params", []), args):
+            self.bind(p, a, s)
+        out = []
+        for ctl, s2, v in self.ev(n["body"], s):
+            out.append(("n", s2, v) if ctl in ("n", "ret") else (ctl, s2, v))
+        return out
 
     def ev_struct(self, n, st):
         cur = [(st, [])]
@@ -625,6 +636,16 @@ class Engine:
                     else:
                         out.append((s, False))
                 return out
+        if pat.get("k") == "plit" and pat["lit"].get("lk") == "bool" and val and val[0] == "ast":
+            # `match node.flag { true => .., false => .. }`: the same decision an `if node.flag` records
+            ck = "cond:" + val[1]
+            want = bool(pat["lit"]["v"])
+            if ck in st.facts:
+                return [(st.copy(), st.facts[ck] == want)]
+            a, b = st.copy(), st.copy()
+            a.facts[ck] = want
+            b.facts[ck] = not want
+            return [(a, True), (b, False)]
         # unknown: both
         a, b = st.copy(), st.copy()
         self.bind(pat, UNK, a)
@@ -1105,6 +1126,48 @@ class Engine:
                         self.pred_stack.pop()
                 return [("n", st, UNK)]
             return [("n", st, UNK)]
+        if r0 in ("opt", "optval") and m in ("flat_map",) and args and args[0] and args[0][0] == "closure":
+            # `opt.into_iter().flat_map(|x| list_of(x))`: the list of the payload, or nothing
+            inner = rv[2] if len(rv) > 2 else UNK
+            out = []
+            forks = self.opt_fork(st, rv[1]) if r0 == "opt" else [(st, bool(rv[1]))]
+            for s1, some in forks:
+                if not some:
+                    out.append(("n", s1, ("list", [])))
+                    continue
+                out.extend(self.call_closure(args[0], [inner], s1))
+            return out
+        if r0 in ("opt", "optval") and m in ("map", "and_then", "inspect") and args and args[0] and args[0][0] == "closure":
+            # Option::map(|x| f(x)): the closure runs on the payload when there is one; Some-ness is unchanged
+            inner = rv[2] if len(rv) > 2 else UNK
+            if r0 == "optval" and not rv[1]:
+                return [("n", st, rv)]
+            out = []
+            if r0 == "opt":
+                for s1, some in self.opt_fork(st, rv[1]):
+                    if not some:
+                        out.append(("n", s1, rv))
+                        continue
+                    for ctl, s2, v in self.call_closure(args[0], [inner], s1):
+                        if ctl != "n":
+                            out.append((ctl, s2, v))
+                        elif m == "map":
+                            out.append(("n", s2, ("opt", rv[1], v)))
+                        elif m == "inspect":
+                            out.append(("n", s2, rv))
+                        else:
+                            out.append(("n", s2, v if v and v[0] in ("opt", "optval") else UNK))
+                return out
+            for ctl, s2, v in self.call_closure(args[0], [inner], st):
+                if ctl != "n":
+                    out.append((ctl, s2, v))
+                elif m == "map":
+                    out.append(("n", s2, ("optval", True, v)))
+                elif m == "inspect":
+                    out.append(("n", s2, rv))
+                else:
+                    out.append(("n", s2, v if v and v[0] in ("opt", "optval") else UNK))
+            return out
         if r0 == "opt":
             if m == "unwrap":
                 return [("n", st, rv[2])]
